@@ -3544,14 +3544,16 @@ in_float_range(PyObject *value, PyObject *range_info)
         return -1;
     }
 
+    /* The comparisons are written so that a NaN value is out of range for
+       every bound, as in BaseRange.float_validate. */
     if (low != Py_None) {
         if ((exclude_mask & 1) != 0) {
-            if (PyFloat_AS_DOUBLE(value) <= PyFloat_AS_DOUBLE(low)) {
+            if (!(PyFloat_AS_DOUBLE(value) > PyFloat_AS_DOUBLE(low))) {
                 return 0;
             }
         }
         else {
-            if (PyFloat_AS_DOUBLE(value) < PyFloat_AS_DOUBLE(low)) {
+            if (!(PyFloat_AS_DOUBLE(value) >= PyFloat_AS_DOUBLE(low))) {
                 return 0;
             }
         }
@@ -3559,12 +3561,12 @@ in_float_range(PyObject *value, PyObject *range_info)
 
     if (high != Py_None) {
         if ((exclude_mask & 2) != 0) {
-            if (PyFloat_AS_DOUBLE(value) >= PyFloat_AS_DOUBLE(high)) {
+            if (!(PyFloat_AS_DOUBLE(value) < PyFloat_AS_DOUBLE(high))) {
                 return 0;
             }
         }
         else {
-            if (PyFloat_AS_DOUBLE(value) > PyFloat_AS_DOUBLE(high)) {
+            if (!(PyFloat_AS_DOUBLE(value) <= PyFloat_AS_DOUBLE(high))) {
                 return 0;
             }
         }
